@@ -27,11 +27,11 @@ def options():
     return out
 
 
-def ob(sec, opt, mode, L, timeout, fixb=None):
+def ob(sec, opt, mode, L, timeout, fixb=None, extra=()):
     fixb = fixb or {}
     n = {"bool": 3, "str": 3 * L, "strseq": 6 * L, "excl": 6 * L, "outdir": 3, "wrongtype": 1}[mode]
-    return vf.CH(f"C16 {mode} {sec}.{opt}" + (f" {sorted(fixb.items())}" if fixb else ""), "c16_layer.py",
-                 dict(MODE=mode, SECTION=sec, OPTION=opt, CLI=CLI.get((sec, opt)), L=L, NCP=n, FIXB=fixb),
+    return vf.CH(f"C16 {mode} {sec}.{opt}" + (f" {sorted(fixb.items())}" if fixb else "") + (f" with {' '.join(extra)} also on the command line" if extra else ""), "c16_layer.py",
+                 dict(MODE=mode, SECTION=sec, OPTION=opt, CLI=CLI.get((sec, opt)), L=L, NCP=n, FIXB=fixb, EXTRA=tuple(extra)),
                  timeout=timeout, encodes=ENC, unblock=["os.mkdir"],
                  symbolic="whether a -s file is given at all; for each of the three writable sources (per-user file, -s file, command line where a flag exists): whether it sets the option, and the value it gives"
                           + ("; relative_to_config switched on in the -s file and/or the per-user file" if mode == "outdir" else ""),
@@ -50,6 +50,13 @@ def build(tier):
                     obs.append(ob(sec, opt, mode, L, t, dict(use_s=us, c_set=cs)))
         else:
             obs.append(ob(sec, opt, mode, L, t))
+    # options do not disturb each other: every command-line flag next to each of the other command-line flags
+    pairs = [(("input", "recursive", "bool"), ("-e", "pat")), (("input", "recursive", "bool"), ("-p", "P", "-o", "od")),
+             (("input", "exclude_filters", "excl"), ("-r",)), (("rst", "prefix", "str"), ("-r", "-e", "pat")),
+             (("rst", "file_extensions_in_titles", "bool"), ("-p", "P", "-r")), (("input", "auto_exclude_directories_without_cmake", "bool"), ("-r", "-e", "pat"))]
+    for ((sec, opt, mode), extra) in pairs:
+        obs.append(ob(sec, opt, mode, L, t, extra=extra))
+    obs.append(ob("output", "directory", "outdir", L, t, dict(use_s=True, c_set=True), extra=("-p", "P")))
     # C16.b a value of the wrong type is rejected, in either file
     for (sec, opt) in (("input", "recursive"), ("input", "include_undocumented_function"), ("rst", "file_extensions_in_titles"),
                        ("input", "kwargs_doc_trigger_string"), ("rst", "module_path_separator")):
